@@ -10,6 +10,7 @@ struct C13Op
 struct C13Plan
 {
   int cores;
+  int affinity;   // CPUs the process is allowed on (0: all)
   int nops;
   C13Op ops[10];
 };
